@@ -36,8 +36,7 @@ func checkC10(sc *Scenario, st *Stats) *Violation {
 	art := RunArtela(sc, ArtelaOpts{Debug: true, Rec: rec, OnEVM: func(evm *avm.EVM, s *state.StateDB) { stRef = s }})
 	for i := range art.Obs {
 		if art.Obs[i].Panic != "" {
-			st.Exclude("panic(C03)")
-			return nil
+			return violf("panic", "invocation %d: the VM panicked: %.1500s", i, art.Obs[i].Panic)
 		}
 	}
 	fl, err := BuildFrames(rec.Evs)
